@@ -243,7 +243,49 @@ def n1(ctx, res):
         cs = charset(b["MV_f"])
         if cs is not None:
             ok_first = all(c.isidentifier() for c in cs) and bool(cs)
-    res.judge(ok_first, pan, "if name[0] not in ascii_letters + '_': name = '_' + name", reason="the first character is an identifier start")
+    first_detail = {}
+    if ok_first is None:
+        # general form: `if <condition on name[0]>: name = '_' + name` - decided over every character that can come first
+        from .norm import view
+        for st in walk_own(view(pan, ctx.prog).body):
+            if not (isinstance(st, ast.If) and not st.orelse and len(st.body) == 1):
+                continue
+            nm = None
+            for node, b in list(find("MV_n = f'_{MV_n}'", st.body)) + list(find("MV_n = '_' + MV_n", st.body)):
+                nm = name_of(b["MV_n"])
+            if nm is None:
+                continue
+
+            def with_charsets(test):
+                """_char_pred plus `in <charset expression>` resolved through locals/constants."""
+                if isinstance(test, ast.Compare) and len(test.ops) == 1 and norm(test.left) == f"{nm}[0]" \
+                        and isinstance(test.ops[0], (ast.In, ast.NotIn)):
+                    cs = charset(test.comparators[0])
+                    if cs is not None:
+                        return (lambda c: c in cs) if isinstance(test.ops[0], ast.In) else (lambda c: c not in cs)
+                if isinstance(test, ast.UnaryOp) and isinstance(test.op, ast.Not):
+                    q = with_charsets(test.operand)
+                    return None if q is None else (lambda c: not q(c))
+                if isinstance(test, ast.BoolOp):
+                    qs = [with_charsets(v) for v in test.values]
+                    if any(q is None for q in qs):
+                        return None
+                    return (lambda c: all(q(c) for q in qs)) if isinstance(test.op, ast.And) else (lambda c: any(q(c) for q in qs))
+                return _char_pred(test, f"{nm}[0]")
+            prefixed = with_charsets(st.test)
+            if prefixed is None:
+                continue
+            firsts = set(mapped) | {"_"}
+            for cp in range(sys.maxunicode + 1):
+                c = chr(cp)
+                if pred(c):
+                    firsts |= set(repl.get(c, c))
+            bad_first = sorted(c for c in firsts if c and not prefixed(c) and not c.isidentifier())
+            ok_first = not bad_first
+            first_detail = {"condition": norm(st.test), "possible_first_characters": len(firsts),
+                            "left_unprefixed_but_not_an_identifier_start": [f"U+{ord(c):04X}" for c in bad_first[:8]]}
+    res.judge(ok_first, pan, "if name[0] not in ascii_letters + '_': name = '_' + name", detail=first_detail,
+              reason="the first character is an identifier start")
     last_if = [st for st in pan.body if isinstance(st, ast.If)]
     ok_last = bool(last_if) and has("MV_n in RESERVED_PROPERTIES", last_if[-1].test) and \
         any(True for _ in find("MV_n = f'{MV_n}_'", last_if[-1].body)) and isinstance(pan.body[-1], ast.Return) and \
